@@ -159,6 +159,16 @@ def gen_tasks(tier, seed):
             if len(r) >= 2 and cls not in ("MinPathCover",):
                 c = [r[0], r[1]]
                 tasks.append({**base, "node_flow": nf if "PathCover" not in cls else None, "constraints": [c], "kwargs": {**kw, "subpath_constraints": [c]}})
+            if cls in ("kMinPathError", "kLeastAbsErrors") and len(G) > 2:
+                # error scale 0 / 0.5 on a node (scale 0 = ignored, also for the covering number that k=None resolves to)
+                k_all = None
+                for v_ in list(G.nodes())[: (3 if tier == "quick" else 6)]:
+                    if not any(x for y, x in nf.items() if y != v_ and x):
+                        continue
+                    for sc in (0, 0.5):
+                        tasks.append({**base, "node_flow": nf, "kwargs": {**kw, "error_scaling": {v_: sc}}})
+                        if cls == "kMinPathError":
+                            tasks.append({**base, "node_flow": nf, "kwargs": {**{a_: b_ for a_, b_ in kw.items() if a_ != "k"}, "k": None, "error_scaling": {v_: sc}}})
             if cls == "kMinPathError":
                 # node lengths + length-dependent slack factors: every boundary in turn, so one falls between the route lengths
                 nlen = {v: rng.choice((1, 2, 3)) for v in G.nodes()}
@@ -209,6 +219,14 @@ def gen_tasks(tier, seed):
             if inner_c and cls == "MinPathCoverCycles":
                 w = rng.choice(inner_c)
                 tasks.append({**base, "node_flow": nf, "starts": [], "ends": [w], "kwargs": {**kw, "additional_ends": [w]}})
+            if cls in ("kMinPathErrorCycles", "kLeastAbsErrorsCycles"):
+                for v_ in list(G.nodes())[: (2 if tier == "quick" else 5)]:
+                    if not any(x for y, x in nf.items() if y != v_ and x):
+                        continue
+                    for sc in (0, 0.5):
+                        tasks.append({**base, "node_flow": nf, "kwargs": {**kw, "error_scaling": {v_: sc}}})
+                        if cls == "kMinPathErrorCycles":
+                            tasks.append({**base, "node_flow": nf, "kwargs": {"weight_type": "int", "k": None, "error_scaling": {v_: sc}}})
             v1 = rng.choice([v for v in G.nodes()])
             if nf is None or any(x for v, x in nf.items() if v != v1 and x):
                 if not flowy:
@@ -259,8 +277,10 @@ def expanded_task(task):
         for v in task["ends"]:
             edges.append((v + ".1", "END", None))
             ignore.append([v + ".1", "END"])
-    kw = {k: v for k, v in task["kwargs"].items() if k not in ("elements_to_ignore", "subpath_constraints", "subset_constraints", "additional_starts", "additional_ends")}
+    kw = {k: v for k, v in task["kwargs"].items() if k not in ("elements_to_ignore", "subpath_constraints", "subset_constraints", "additional_starts", "additional_ends", "error_scaling")}
     kw["elements_to_ignore"] = ignore
+    if task["kwargs"].get("error_scaling"):
+        kw["error_scaling"] = {(v + ".0", v + ".1"): f for v, f in task["kwargs"]["error_scaling"].items()}
     ck = "subset_constraints" if task["cyc"] else "subpath_constraints"
     if task["constraints"]:
         kw[ck] = [[[v + ".0", v + ".1"] for v in c] for c in task["constraints"]]
